@@ -82,6 +82,12 @@ func (e *enc) callCommon(b *ssa.BasicBlock, ins ssa.Instruction, cc *ssa.CallCom
 		recv := e.val(cc.Value)
 		e.addI("safe", "nil-iface", ins, R, fmt.Sprintf("(not (= %s INil))", recv))
 		key := e.ifaceKey(cc)
+		if key == "sync.Locker.Lock" || key == "sync.Locker.Unlock" {
+			k2 := "(*sync.Mutex)." + cc.Method.Name()
+			if e.syncCall(ins, k2, []string{"(iptr " + recv + ")"}, nil, R) {
+				return
+			}
+		}
 		e.callOrd[key]++
 		e.siteAsserts(ins, fmt.Sprintf("call %d of %s", e.callOrd[key], key), cc.Method.Type().(*types.Signature), append([]string{recv}, args...), R)
 		if fc := e.w.CS.Ifaces[key]; fc != nil {
@@ -772,6 +778,9 @@ func (e *enc) siteAsserts(ins ssa.Instruction, site string, sig *types.Signature
 			off := 0
 			if sig.Recv() != nil {
 				off = 1
+				if len(args) > 0 {
+					env.vars["recv"] = cval{args[0], e.sortOf(sig.Recv().Type()), sig.Recv().Type()}
+				}
 			}
 			for i := 0; i < sig.Params().Len() && i+off < len(args); i++ {
 				p := sig.Params().At(i)
